@@ -78,7 +78,7 @@ def gen(rng, tier):
     prof.handlers = ['cont', 'rewait', 'ret', 'other']
     case = gen_program(rng, prof)
     factor = rng.choice([0.5, 1.0, 1.0, 2.0])
-    case['t0'] = rng.choice([0, 0, 5, 10])
+    case['t0'] = rng.choice([0, 0, 5, 10, -4, -0.5])
     burns = [0.25, 0.5, 1.0, 1.0, 2.0, 3.0, factor, factor]
 
     def sprinkle(ops):
